@@ -41,6 +41,13 @@ def handle (f : List String) : String :=
     | some ranges =>
       let d := obsAll (make (0.0 : Float) ranges) (parseBitsList vs)
       s!"ranges={showRanges d.buckets} {showObs d} cum={cum d}"
+  -- the same observations arriving as log lines (the case carries the values the texts spell)
+  | ["vmobs", _decs, bs, vs, _texts, _cap] =>
+    match rangesOfDecl ((parseBitsList bs).map bitsToFV) with
+    | none => "reject"
+    | some ranges =>
+      let d := obsAll (make (0.0 : Float) ranges) (parseBitsList vs)
+      s!"ranges={showRanges d.buckets} {showObs d} cum={cum d}"
   | ["expo", _decs, bs, va, vb] =>
     -- two label sets, each with its own observations: the exported cumulative counts of a label
     -- set are those of its own datum
